@@ -317,6 +317,12 @@ Definition top_keys_at (v : sview) (p : path) : list string :=
 Definition top_keys (v : sview) : list string := top_keys_at v [].
 
 Definition str_mem (x : string) (l : list string) : bool := existsb (String.eqb x) l.
+Definition names_eqb (a b : option (list string)) : bool :=
+  match a, b with
+  | None, None => true
+  | Some x, Some y => path_eqb x y
+  | _, _ => false
+  end.
 
 (* keys present in every member of a lazy stack *)
 Definition lazy_common_keys (v : sview) : list string :=
@@ -403,8 +409,12 @@ Definition freshv (v : sview) (m : meth) (args : list arg) (kwargs : list (strin
     | MBytes => VNat (bytes_of (truthy (par env "count_duplicates")) (values_of v true true mask_default false))
     | MParamCount => VNat (count_of (truthy (par env "count_duplicates")) (values_of v true true mask_default false))
     | MLazyNames =>
-        (* _lazy.py:462: the members' names with the stack-dim name inserted; here: the first member's names *)
-        VNames (match members v with m0 :: _ => m_names (i_meta (snd m0)) | [] => None end)
+        (* _lazy.py:462: the first member's names (the stack-dim name inserted); ValueError if a member's names differ *)
+        match members v with
+        | m0 :: ms => if forallb (fun m => names_eqb (m_names (i_meta (snd m))) (m_names (i_meta (snd m0)))) ms
+                      then VNames (m_names (i_meta (snd m0))) else VRaise
+        | [] => VRaise
+        end
     | MKeyList => VKeys (lazy_common_keys v)
     | MHasExclusive =>
         VBool (match members v with
@@ -507,8 +517,30 @@ Definition call0 (s : state) (p : path) (m : meth) (args : list arg) (kwargs : l
 Definition run_subcalls (s : state) (p : path) (cs : list (meth * list arg * list (string * arg))) : state * list cval :=
   fold_left (fun acc c => let r := call0 (fst acc) p (fst (fst c)) (snd (fst c)) (snd c) in (fst r, snd acc ++ [snd r])) cs (s, []).
 
+(* memoised calls a lazy stack's method makes on its MEMBERS while it runs: _has_exclusive_keys (_lazy.py:356) asks every
+   member for set(td.keys(True, True)) — the members' memoised key views — and stops at the first member that differs *)
+Fixpoint upto_first {A} (f : A -> bool) (l : list A) : list A :=
+  match l with [] => [] | x :: r => if f x then [x] else x :: upto_first f r end.
+
+Definition keys_kwargs : list (string * arg) :=
+  [("include_nested", ABool true); ("is_leaf", ANone); ("leaves_only", ABool true); ("sort", ABool false)].
+
+Definition member_calls (s : state) (p : path) (n : node) (m : meth) : state :=
+  match n_kind n, m with
+  | NLAZY, MHasExclusive =>
+      let v := view_of s p in
+      match members v with
+      | [] => s
+      | m0 :: ms =>
+          let differs := fun x => negb (forallb (fun q => path_mem q (leaf_paths_at v (fst x))) (leaf_paths_at v (fst m0))
+                                        && Nat.eqb (List.length (leaf_paths_at v (fst x))) (List.length (leaf_paths_at v (fst m0)))) in
+          fold_left (fun st x => fst (call0 st (p ++ fst x) MNestedKeys [] keys_kwargs)) (m0 :: upto_first differs ms) s
+      end
+  | _, _ => s
+  end.
+
 (* one public read.  The body runs on a miss, when the node is not locked, and — with the verification hook on — also on
-   a hit (the hook recomputes); its memoised callees on the same node are issued then.
+   a hit (the hook recomputes); its memoised callees on the same node (and, for a lazy stack, on its members) are issued then.
    Result: (access, value returned to the caller, value of the body if it ran). *)
 Definition read (hooked : bool) (s : state) (p : path) (m : meth) (args : list arg) (kwargs : list (string * arg))
   : state * option (access * cval * option cval) :=
@@ -523,7 +555,7 @@ Definition read (hooked : bool) (s : state) (p : path) (m : meth) (args : list a
            | (s', None) => (s', None)
            end
       else
-        let sv := run_subcalls s p (subcalls m env) in
+        let sv := run_subcalls (member_calls s p n m) p (subcalls m env) in
         match find_node (fst sv) p with
         | None => (fst sv, None)
         | Some n1 =>
